@@ -24,7 +24,8 @@ pub fn generate_qa_report(
     qa_items.sort_by_key(|(target, _)| format!("{:?}", target));
 
     for item in qa_items {
-        if item.1.len() > 0 {
+        //A pattern is only listed if it has at least one line to show (an entry may carry an empty line set)
+        if item.1.iter().any(|(_, lines)| !lines.is_empty()) {
             let qa_target = item.0;
             //List the files in a fixed order, independent of the order in which they were discovered
             let mut matches = item.1;
